@@ -8,6 +8,8 @@
 (*           inner write(len) -> res calls in between, result, dlen, dpre (delivered is a prefix   *)
 (*           of the reference: byte comparison done by the harness), later = the later healthy save *)
 (*   devfull Document::save to a full device                                                      *)
+(*   twice   two saves of one document object to two sinks with different chunkings               *)
+(*   limit   a document whose highest object number is 2^32 - 2, saved in a supervised worker      *)
 (*   skip    configuration whose reference could not be produced (outside the domain)              *)
 (* The state carried along the trace is the current configuration (ctx).  For every run the sink's *)
 (* answers are bound from the log (Accept(k) / Interrupted / Ok0 / Err), the writer's position is  *)
@@ -59,8 +61,17 @@ JudgeRun(c, r) ==
 JudgeDevFull(r) ==
     IF r.result = "err" THEN "ok-devfull" ELSE IF r.result = "panic" THEN "panic" ELSE "err-not-surfaced"
 
+JudgeTwice(c, r) ==
+    IF r.cfg # c.id THEN "tool:context"
+    ELSE LET v == TwiceVerdict(r) IN IF v = "ok" THEN "ok-twice" ELSE v
+
+JudgeLimit(r) == LET v == LimitVerdict(r) IN
+    IF v # "ok" THEN v ELSE IF r.ref = "err" THEN "ok-limit-refused" ELSE "ok-limit-written"
+
 Judge(c, r) ==
     CASE r.ev = "ref" -> JudgeRef(r)
+      [] r.ev = "twice" -> JudgeTwice(c, r)
+      [] r.ev = "limit" -> JudgeLimit(r)
       [] r.ev = "run" -> JudgeRun(c, r)
       [] r.ev = "devfull" -> JudgeDevFull(r)
       [] r.ev = "skip" -> "ok-skip"
